@@ -45,6 +45,9 @@ def obligations(tier):
                       funcs=("chartparse.track.parse_data_from_chart_lines",),
                       bounds="a run of 0..8 (12) lines of one kind, optionally an unparsable line, 0..2 lines of a second kind, then a line accepted by any "
                              "subset of the three kinds: first accepting kind in the caller's order wins, whatever came before"))
+    obs.append(Ob("C14.dispatcher_long", "CH", "harness.h_track", "dispatcher_long", 900, funcs=("chartparse.track.parse_data_from_chart_lines",),
+                  bounds="a section of 5..4097 lines (15 sizes around powers of two) of one kind followed by 1-3 lines accepted by any subset of the three kinds: "
+                         "first accepting kind of the caller's order wins however long the section (native execution, solver-chosen case)"))
     return obs
 
 
